@@ -200,14 +200,41 @@ def run(chk, ctx) -> None:
             return None
     r = _To11(chk)
     _max_amount(r, ctx)      # fixed-limit: exactly the fixed size; pot-limit: up to the pot; no-limit: up to the stack
-    _refusals(r, ctx)        # a bet/raise is refused once the per-street cap is reached
-    _raise_effects(r, ctx)   # every bet/raise counts towards the cap
+    _cap_semantics(chk, ctx)   # a bet/raise is refused once the per-street cap is reached; every bet/raise counts towards it
     chk.floor('C11.semantics', 4)
     _defaults(chk, ctx, variants)
     _game_properties(chk, ctx)
     _create_state(chk, ctx, variants)
     _game_call(chk, ctx)
     _codes(chk, ctx, sev)
+
+
+def _cap_semantics(chk, ctx) -> None:
+    """what "at most N bets/raises per round" means while playing - only the cap clauses of the betting rules (the rest of
+    C03's refusal and re-opening rules says nothing about a variant)"""
+    from .c03 import raise_guards
+    from .. import terms as T
+    from ..paths import unversion
+    name = '_verify_completion_betting_or_raising'
+    cap = T.spec('self.completion_betting_or_raising_count == self.street.max_completion_betting_or_raising_count', boolean=True)
+    guards = [g for exc, g, cs, p in raise_guards(ctx, name) if exc == 'ValueError']
+    chk.ob('C11.semantics', f'State.{name}:cap', cap in guards, ctx.sfi(name).loc,
+           'a bet/raise is refused when the number of bets/raises of the round has reached the cap of the street', want=T.show(cap))
+    op = ctx.sfi('complete_bet_or_raise_to')
+    ok = True
+    n = 0
+    for p in ctx.paths(op):
+        if not p.returned:
+            continue
+        n += 1
+        incs = [e for e in p.writes() if unversion(e.term) == ('self', 'completion_betting_or_raising_count')]
+        ok &= len(incs) == 1 and incs[0].op == '+=' and unversion(incs[0].value) == T.num(1)
+    chk.ob('C11.semantics', 'State.complete_bet_or_raise_to:counted', ok and n > 0, op.loc,
+           'every completion, bet or raise counts once towards the cap (full or not)')
+    bb = ctx.sfi('_begin_betting')
+    resets = [e for p in ctx.paths(bb) for e in p.writes() if unversion(e.term) == ('self', 'completion_betting_or_raising_count')]
+    chk.ob('C11.semantics', 'State._begin_betting:count_reset', bool(resets) and all(e.op == 'set' and unversion(e.value) == T.num(0) for e in resets), bb.loc,
+           'the count starts from 0 in every betting round (the cap is per street)')
 
 
 WANT_DEFAULTS = {'mode': 'Mode.TOURNAMENT', 'starting_board_count': '1', 'divmod': 'divmod', 'rake': 'rake'}
